@@ -36,6 +36,10 @@ def show_req(req):
             bd = p.get("bd") or []
             ds = [int(key(bd[i])) if i < len(bd) and bd[i] else d for i, d in enumerate(p["deltas"])]
             s += ",deltas=%s,pkey=%s" % (ds, p["pkey"])
+        if p["pkey"] and "pk" in p:
+            s += ",pk=%r" % key(p["pk"])
+        if p.get("cidp"):
+            s += ",cid=''(present)"
         for ix in p["idx"]:
             s += ",%s:%s" % (key(ix["n"]), key(ix["k"]))
         out.append(s + ")")
